@@ -5,7 +5,7 @@ id=$1; k=$2; src=/verif/seeded/$id-m$k; wt=/tmp/seedwt-$id-$k
 rm -rf $wt; git -C /repo worktree add -q --detach $wt HEAD || exit 2
 cd $wt
 PYTHONPATH=$wt PYTHONHASHSEED=0 timeout 300 /venv/bin/python $src/demo.py > $wt.before 2>&1; d0=$?
-if git apply $src/patch.diff 2>$wt.apply || git apply --3way $src/patch.diff 2>>$wt.apply; then ap=ok; else ap=FAILED; fi
+if git apply $src/patch.diff 2>$wt.apply; then ap=ok; else ap=FAILED; fi
 tests=$(PYTHONPATH=$wt timeout 600 /venv/bin/python -m pytest -q -p no:cacheprovider tests 2>&1 | tail -1)
 PYTHONPATH=$wt PYTHONHASHSEED=0 timeout 300 /venv/bin/python $src/demo.py > $wt.after 2>&1; d1=$?
 echo "$id m$k apply=$ap demo_before=$d0 demo_after=$d1 tests=$tests"
